@@ -621,7 +621,8 @@ func runBatch(r *core.Run, in batchIn) (*batchOut, error) {
 					}
 					if res.Bad != "" {
 						f := finding{Type: "panic-message", Text: res.Bad, Site: res.Site, Input: []byte(it.input), Key: k, CaseID: it.caseID, Family: it.family, Lang: it.lang, Extra: it.extra}
-						c := canonicalDigest(filepath.Join(dir, "canon"))
+						// (not below the worker's scratch tree: its package.json / tsconfig.json would be found by the resolver)
+						c := canonicalDigest(filepath.Join(in.Dir, fmt.Sprintf("canon-w%d", w)))
 						mu.Lock()
 						if len(out.Findings) < 200 {
 							out.Findings = append(out.Findings, f)
